@@ -150,6 +150,7 @@ def per_token_cases(log, spec, d, plain, calls):
 
 
 def run_op_id(label, thunk, opid):
+    B.new_epoch()
     s0 = B.ev("OP_BEGIN", op=label, opid=opid)
     me = threading.get_ident()
     probes.CURRENT_OPS[me] = (label, time.monotonic())
@@ -175,6 +176,11 @@ def w1_concurrent_calls(col, rng, cidx, jobref):
     for nd in sp["nodes"]:
         if rng.random() < 0.3:
             nd["args"].append(["p", "y"])
+    # several call sites sharing ONE activation flag (a DAG argument whose truthiness differs between the concurrent calls)
+    indexed = {a[1] for m in sp["nodes"] for a in list(m["args"]) + list(m["kwargs"].values()) if a[0] == "n" and a[2]}
+    for i_, nd in enumerate(sp["nodes"]):
+        if nd["active"] is None and i_ not in indexed and rng.random() < 0.3:
+            nd["active"] = ["p", "x"]
     d, _e, plain = S.build_tawazi(sp)
     ids = S.node_ids(sp)
     nthreads = rng.choice([2, 4, 8, 16])
@@ -186,6 +192,9 @@ def w1_concurrent_calls(col, rng, cidx, jobref):
     probes.reset_counts()
     B.Settings.controlled = False
     B.Settings.stress_sleep = 0.002
+    from . import sym as _sym
+
+    _sym.YIELD_IN_BOOL[0] = 0.0005 if rng.random() < 0.5 else 0  # flag evaluation as a pre-emption point
     calls = {}
     start = threading.Barrier(nthreads)
     lock = threading.Lock()
@@ -204,6 +213,7 @@ def w1_concurrent_calls(col, rng, cidx, jobref):
         t.start()
     for t in ths:
         t.join(120)
+    _sym.YIELD_IN_BOOL[0] = 0
     if any(t.is_alive() for t in ths):
         col.inconclusive.append("concurrent-call threads did not finish within 120 s")
         return
@@ -245,6 +255,68 @@ def w1_concurrent_calls(col, rng, cidx, jobref):
     if cidx % 20 == 0:
         col.sample(dict(workload="concurrent calls of one DAG", source=S.render(sp), threads=nthreads, calls_per_thread=ncalls,
                         tokens=len([e for e in log if e["kind"] == "POOL_NEW"])))
+
+
+def w4_shared_flag(col, rng, cidx, jobref):
+    """Many call sites share ONE activation flag object (a DAG argument); threads call the DAG concurrently with flags of
+    different truthiness; the evaluation of the flag is a pre-emption point. Every call must activate exactly its own nodes."""
+    pid = "C16"
+    from . import sym as _sym
+
+    n = rng.randint(4, 9)
+    fns, nodes = {}, []
+    for i in range(n):
+        fns["f%d" % i] = dict(priority=rng.choice([0, 1, 2]), is_sequential=False, resource=rng.choice(["thread", "thread", "main-thread"]), shape=None)
+        nd = {"fn": "f%d" % i, "args": [["p", "y"]], "kwargs": {}, "active": ["p", "x"] if rng.random() < 0.8 else None}
+        if i and rng.random() < 0.3:
+            nd["args"].append(["n", rng.randrange(i), []])
+        nodes.append(nd)
+    sp = {"name": "prog", "params": ["x", "y"], "defaults": {}, "fns": fns, "nodes": nodes,
+          "ret": ["tuple", [["n", i, []] for i in range(n)]], "mc": rng.randint(1, 3), "is_async": False}
+    d, _e, plain = S.build_tawazi(sp)
+    nthreads = rng.choice([2, 3, 4, 8])
+    ncalls = rng.randint(2, 5)
+    truthy = [Sym("flag", cidx, q) for q in range(40) if bool(Sym("flag", cidx, q))][:6]
+    falsy = [Sym("flag", cidx, q) for q in range(40) if not bool(Sym("flag", cidx, q))][:6] + [0, None, ""]
+    plan_ = {t: [[rng.choice(truthy if rng.random() < 0.5 else falsy), Sym("argy", cidx, t, k)] for k in range(ncalls)] for t in range(nthreads)}
+    refs = {t: [S.run_reference(sp, a, plain) for a in plan_[t]] for t in range(nthreads)}
+    rp = {"kind": "rerun_job", "job": dict(jobref, n_cases=cidx + 1), "source": S.render(sp), "threads": nthreads}
+    B.reset_log()
+    B.Settings.controlled = False
+    B.Settings.stress_sleep = 0.0005
+    _sym.YIELD_IN_BOOL[0] = 0.0003
+    out = {}
+    start = threading.Barrier(nthreads)
+
+    def worker(t):
+        start.wait()
+        res = []
+        for k, a in enumerate(plan_[t]):
+            res.append(run_op_id("call", lambda: d(*a), "f%d.%d.%d" % (cidx, t, k)))
+        out[t] = res
+
+    try:
+        ths = [threading.Thread(target=worker, args=(t,), name="twz-client") for t in range(nthreads)]
+        for t in ths:
+            t.start()
+        for t in ths:
+            t.join(120)
+    finally:
+        _sym.YIELD_IN_BOOL[0] = 0
+    col.evaluations += 1
+    col.counters["c16_shared_flag_cases"] += 1
+    for t in range(nthreads):
+        for k, r in enumerate(out.get(t, [])):
+            rf = refs[t][k]
+            col.counters["c16_shared_flag_calls"] += 1
+            if rf[0] != "ok":
+                continue
+            if r[0] != "ok":
+                col.violation(pid, "concurrent_call_raised", dict(exc=repr(r[1])[:300], threads=nthreads, source=S.render(sp)), rp)
+            elif not same(rf[1].result, r[1]):
+                col.violation(pid, "concurrent_call_activated_nodes_by_another_calls_flag", dict(
+                    flag=short(plan_[t][k][0]), expected=short(rf[1].result, 300), got=short(r[1], 300), threads=nthreads, source=S.render(sp)), rp)
+    col.hashes.add(S.spec_hash({"flagrace": S.render(sp), "t": nthreads, "c": ncalls}))
 
 
 def w2_build_overlap(col, rng, cidx, jobref):
@@ -489,14 +561,16 @@ def job_conc16(j):
     if j.get("lockset", True):
         LOCKSET.install()
     for c in range(j["n_cases"]):
-        w = c % 3
+        w = c % 4
         try:
             if w == 0:
                 w1_concurrent_calls(col, rng, c, j)
             elif w == 1:
                 w2_build_overlap(col, rng, c, j)
-            else:
+            elif w == 2:
                 w3_concurrent_builds(col, rng, c, j)
+            else:
+                w4_shared_flag(col, rng, c, j)
         except (KeyboardInterrupt, SystemExit):
             raise
         except BaseException as e:  # noqa: BLE001
@@ -504,7 +578,7 @@ def job_conc16(j):
             tb = traceback.extract_tb(e.__traceback__)
             if any("/tawazi/" in f.filename for f in tb):
                 col.violation("C16", "valid_build_or_call_raised_in_concurrent_workload", dict(
-                    workload=["concurrent_calls", "build_overlap", "concurrent_builds"][w], exc=repr(e)[:300],
+                    workload=["concurrent_calls", "build_overlap", "concurrent_builds", "shared_flag"][w], exc=repr(e)[:300],
                     where=["%s:%d" % (f.name, f.lineno) for f in tb if "/tawazi/" in f.filename][-3:]),
                     {"kind": "rerun_job", "job": dict(j, n_cases=c + 1)})
             else:
